@@ -59,7 +59,7 @@ def classify(case):
     found = []
     for x in steps:
         kind = x["op"]["kind"]
-        if kind in ("install", "refresh", "revert", "revert-to") and not x.get("err") and x.get("k", 0) > 0:
+        if kind in ("install", "refresh", "refresh-path", "revert", "revert-to") and not x.get("err") and x.get("k", 0) > 0:
             if proj(before) != proj(x["after"]):
                 cl = step_classes(before, x)
                 if not cl:
